@@ -258,8 +258,14 @@ func c19(rng *rand.Rand) string {
 // ---------- C11
 func c11(rng *rand.Rand) string {
 	pool := []string{"a", "b", "c", "a", "", "x y", "é", "\xff\xfe", "line\r"}
+	maxLines := 8
+	if rng.Intn(2) == 0 {
+		// few distinct lines, many repeats: edits can slide over equal runs in the cleanup passes
+		pool = []string{"l0", "l1", "l2"}
+		maxLines = 10
+	}
 	mk := func() string {
-		n := rng.Intn(8)
+		n := rng.Intn(maxLines)
 		var ls []string
 		for i := 0; i < n; i++ {
 			ls = append(ls, pool[rng.Intn(len(pool))])
